@@ -265,6 +265,9 @@ func checkC14(c *Ctx) {
 			fmt.Sprintf("the loop that doubles the mantissa has %d exit edge(s), each taken only when mantissa&(1<<23) != 0", nexit), why)
 	}
 
+	// ---- ENORM (encode side): the halving loop continues exactly while bitrate >= 2^18
+	c14EncNorm(c, mt)
+
 	// ---- CNT-DEC
 	var numV ssa.Value // int(buf[16])
 	for _, b := range un.Blocks {
@@ -388,4 +391,191 @@ func c14Zero(c *Ctx) {
 	default:
 		r.Ok("C14-ZERO", key, p.Pos(fn.Pos()), fmt.Sprintf("for the exponents %v a zero mantissa is not decoded to a definite non-zero bitrate", exps))
 	}
+}
+
+// c14EncNorm: "18-bit mantissa, minimal exponent" needs the encoder to divide by two exactly while the
+// value is >= 2^18 and to count one exponent step per division. The rule finds the loop that halves a
+// float phi in MarshalTo and decides the set of values on which it continues from the comparison that
+// guards the halving: it has to be [2^18, inf). A comparison against another constant, or a strict one
+// (x > 2^18-1 continues for 262143.5, which then gets exponent 1 although it fits exponent 0), is a
+// violation; a loop whose guard is not a comparison with a constant is undecided. An encoder without a
+// halving loop (closed form) is outside this rule and only noted.
+func c14EncNorm(c *Ctx, mt *ssa.Function) {
+	r, p := c.Rep, c.Prog
+	isFloat := func(t types.Type) bool {
+		b, ok := t.Underlying().(*types.Basic)
+		return ok && b.Info()&types.IsFloat != 0
+	}
+	constFloat := func(v ssa.Value) (float64, bool) {
+		k, ok := v.(*ssa.Const)
+		if !ok || k.Value == nil {
+			return 0, false
+		}
+		if !isFloat(k.Type()) && k.Type().Underlying().(*types.Basic).Info()&types.IsInteger == 0 {
+			return 0, false
+		}
+		return k.Float64(), true
+	}
+	var phi *ssa.Phi
+	var halve *ssa.BinOp
+	for _, b := range mt.Blocks {
+		for _, in := range b.Instrs {
+			ph, ok := in.(*ssa.Phi)
+			if !ok || !isFloat(ph.Type()) {
+				continue
+			}
+			for _, e := range ph.Edges {
+				bo, ok := e.(*ssa.BinOp)
+				if !ok || bo.X != ssa.Value(ph) {
+					continue
+				}
+				if k, isK := constFloat(bo.Y); isK && (bo.Op == token.QUO && k == 2 || bo.Op == token.MUL && k == 0.5) {
+					phi, halve = ph, bo
+				}
+			}
+		}
+	}
+	key := "ReceiverEstimatedMaximumBitrate.MarshalTo/halving-continues-exactly-from-2^18"
+	if phi == nil {
+		r.Check(true, "C14-ENORM", key, p.Pos(mt.Pos()), "MarshalTo has no loop halving a float value: the exponent is not computed by repeated division and minimality is not decided by this rule", "")
+		r.NotCov("C14-ENORM found no halving loop in MarshalTo: exponent minimality of a closed-form encoder is not decided")
+		return
+	}
+	body := halve.Block()
+	// the If that decides between the halving block and leaving: the last instruction of the phi's block,
+	// or of a block between it and the body
+	var iff *ssa.If
+	var ib *ssa.BasicBlock
+	for _, b := range mt.Blocks {
+		if len(b.Instrs) == 0 {
+			continue
+		}
+		i2, ok := b.Instrs[len(b.Instrs)-1].(*ssa.If)
+		if !ok || !(b == phi.Block() || phi.Block().Dominates(b)) || !(b.Dominates(body)) || b == body {
+			continue
+		}
+		if cmp, ok := i2.Cond.(*ssa.BinOp); ok {
+			if c14derivesFrom(cmp.X, phi) || c14derivesFrom(cmp.Y, phi) {
+				iff, ib = i2, b
+			}
+		}
+	}
+	if iff == nil {
+		r.Unk("C14-ENORM", key, p.Pos(halve.Pos()), "the block halving the bitrate is not guarded by a comparison of the bitrate with a constant")
+		return
+	}
+	cmp := iff.Cond.(*ssa.BinOp)
+	x, kv, op := cmp.X, cmp.Y, cmp.Op
+	if _, isK := constFloat(kv); !isK {
+		// constant on the left: mirror
+		x, kv = cmp.Y, cmp.X
+		switch op {
+		case token.LSS:
+			op = token.GTR
+		case token.LEQ:
+			op = token.GEQ
+		case token.GTR:
+			op = token.LSS
+		case token.GEQ:
+			op = token.LEQ
+		}
+	}
+	k, isK := constFloat(kv)
+	if !isK {
+		r.Unk("C14-ENORM", key, p.Pos(cmp.Pos()), "the guard of the halving loop does not compare with a constant")
+		return
+	}
+	contOnTrue := ib.Succs[0] == body || (ib.Succs[0] != phi.Block() && ib.Succs[0].Dominates(body))
+	if !contOnTrue {
+		switch op { // negate: continue-set is the complement
+		case token.LSS:
+			op = token.GEQ
+		case token.LEQ:
+			op = token.GTR
+		case token.GTR:
+			op = token.LEQ
+		case token.GEQ:
+			op = token.LSS
+		}
+	}
+	integral := c14integral(x, phi)
+	good := op == token.GEQ && k == 262144 || integral && op == token.GTR && k == 262143
+	form := fmt.Sprintf("continues while x %s %v", op, k)
+	if integral {
+		form += " (x integer-valued)"
+	}
+	r.Check(good, "C14-ENORM", key, p.Pos(cmp.Pos()),
+		"the loop dividing the bitrate by two "+form+", i.e. exactly on [2^18, inf): the mantissa is the largest 18-bit one and the exponent minimal",
+		"the loop dividing the bitrate by two "+form+"; the property needs it to continue exactly on [2^18, inf): a value in the gap is halved once too often or too seldom, so the exponent is not minimal / the mantissa exceeds 18 bits")
+	// one exponent step per halving, starting from 0
+	okExp := false
+	for _, in := range phi.Block().Instrs {
+		ph, ok := in.(*ssa.Phi)
+		if !ok || ph == phi || len(ph.Edges) != len(phi.Edges) {
+			continue
+		}
+		if b, ok := ph.Type().Underlying().(*types.Basic); !ok || b.Info()&types.IsInteger == 0 {
+			continue
+		}
+		all := true
+		for i, e := range ph.Edges {
+			if phi.Edges[i] == ssa.Value(halve) {
+				bo, ok := e.(*ssa.BinOp)
+				if !(ok && bo.Op == token.ADD && bo.X == ssa.Value(ph) && isConstInt(bo.Y, 1) && bo.Block() == body) {
+					all = false
+				}
+			} else if !isConstInt(e, 0) {
+				all = false
+			}
+		}
+		if all {
+			okExp = true
+		}
+	}
+	r.Check(okExp, "C14-ENORM", "ReceiverEstimatedMaximumBitrate.MarshalTo/one-exponent-step-per-halving", p.Pos(halve.Pos()),
+		"an integer counter starts at 0 and is incremented by exactly 1 in the block that halves the bitrate",
+		"no integer counter that starts at 0 and grows by exactly 1 per halving was found next to the halved bitrate")
+}
+
+// c14derivesFrom: v is ph itself or ph through float conversions / math.Floor / conversion to an integer.
+func c14derivesFrom(v ssa.Value, ph *ssa.Phi) bool {
+	for d := 0; d < 6; d++ {
+		if v == ssa.Value(ph) {
+			return true
+		}
+		switch x := v.(type) {
+		case *ssa.Convert:
+			v = x.X
+		case *ssa.Call:
+			if f := x.Call.StaticCallee(); f != nil && f.Pkg != nil && f.Pkg.Pkg.Path() == "math" && (f.Name() == "Floor" || f.Name() == "Trunc") && len(x.Call.Args) == 1 {
+				v = x.Call.Args[0]
+			} else {
+				return false
+			}
+		default:
+			return false
+		}
+	}
+	return false
+}
+
+// c14integral: on the way from the phi to the compared value there is a math.Floor/Trunc or a conversion to an integer type.
+func c14integral(v ssa.Value, ph *ssa.Phi) bool {
+	for d := 0; d < 6 && v != ssa.Value(ph); d++ {
+		switch x := v.(type) {
+		case *ssa.Convert:
+			if b, ok := x.Type().Underlying().(*types.Basic); ok && b.Info()&types.IsInteger != 0 {
+				return true
+			}
+			v = x.X
+		case *ssa.Call:
+			if len(x.Call.Args) == 1 {
+				return true // Floor / Trunc (checked by c14derivesFrom)
+			}
+			return false
+		default:
+			return false
+		}
+	}
+	return false
 }
